@@ -241,10 +241,10 @@ Section Typed.
         end) fs).
   Proof. intros Hu. cbn [gc_typed]. rewrite Hu. reflexivity. Qed.
 
-  Lemma record_GT t0 n p gfs fs : mn t0 = t0 \/ True ->
+  Lemma record_GT t0 n p gfs fs :
     underlying t0 = TStruct n p gfs -> pfields GT gfs fs -> GT (CRecord fs) t0.
   Proof.
-    intros _ Hu Hf. split; [|unfold alloc_ok; cbn [alloc_type]; apply same_gc_refl].
+    intros Hu Hf. split; [|unfold alloc_ok; cbn [alloc_type]; apply same_gc_refl].
     apply (gc_record_eq fs t0 n p gfs Hu).
     induction fs as [|[fc [j|]] l IH]; [exact I| |]; cbn [pfields] in Hf.
     - destruct Hf as [[gf [Hn [Hg _]]] Hl]. rewrite Hn. split; [exact Hg|apply IH; exact Hl].
@@ -289,3 +289,139 @@ Section Typed.
     - intros om nn t [Hg Ha]. split; [exact Hg|exact Ha].
   Qed.
 End Typed.
+
+(* ------------------------------------------------------------------ *)
+(* (3) layout: pointer words of composites                              *)
+(* ------------------------------------------------------------------ *)
+Lemma struct_ptr_words_gen d : forall gfs off j gf o,
+  nth_error gfs j = Some gf -> In o (ptr_offsets (gf_type gf)) ->
+  In (nth j (field_offsets gfs off) d + o)
+     ((fix go (l : list gfield) (off : Z) {struct l} : list Z :=
+         match l with
+         | [] => []
+         | GF _ _ _ _ ft :: r =>
+             let o := align_up off (alignof ft) in
+             map (Z.add o) (ptr_offsets ft) ++ go r (o + sizeof ft)
+         end) gfs off).
+Proof.
+  induction gfs as [|[fn fe fj fb ft] r IH]; intros off j gf o Hn Ho.
+  - destruct j; discriminate.
+  - destruct j as [|j].
+    + cbn in Hn. injection Hn as <-. cbn [gf_type] in Ho. cbn [field_offsets nth]. cbv zeta.
+      apply in_or_app. left. apply in_map. exact Ho.
+    + cbn [nth_error] in Hn. cbn [field_offsets nth]. cbv zeta. apply in_or_app. right.
+      apply (IH _ j gf o Hn Ho).
+Qed.
+
+Lemma struct_ptr_words n p gfs : forall j gf o,
+  nth_error gfs j = Some gf -> In o (ptr_offsets (gf_type gf)) ->
+  In (nth j (field_offsets gfs 0) 0 + o) (ptr_offsets (TStruct n p gfs)).
+Proof. intros j gf o Hn Ho. cbn [ptr_offsets]. apply (struct_ptr_words_gen 0 gfs 0 j gf o Hn Ho). Qed.
+
+Lemma array_ptr_words n e i o : 0 <= i < n -> In o (ptr_offsets e) ->
+  In (i * sizeof e + o) (ptr_offsets (TArray n e)).
+Proof.
+  intros Hi Ho. cbn [ptr_offsets].
+  assert (Hgen : forall k off (j : nat), (j < k)%nat ->
+     In (off + Z.of_nat j * sizeof e + o)
+        ((fix rep (k : nat) (off : Z) {struct k} : list Z :=
+            match k with O => [] | S k' => map (Z.add off) (ptr_offsets e) ++ rep k' (off + sizeof e) end) k off)).
+  { induction k as [|k IH]; intros off j Hj; [lia|].
+    apply in_or_app. destruct j as [|j].
+    - left. replace (off + Z.of_nat 0 * sizeof e + o) with (off + o) by lia. apply in_map. exact Ho.
+    - right. replace (off + Z.of_nat (S j) * sizeof e + o) with ((off + sizeof e) + Z.of_nat j * sizeof e + o) by lia.
+      apply IH. lia. }
+  specialize (Hgen (Z.to_nat n) 0 (Z.to_nat i)). rewrite Z2Nat.id in Hgen by lia. apply Hgen. lia.
+Qed.
+
+Lemma in_shift base o l : In o l -> In (base + o) (map (Z.add base) l).
+Proof. apply in_map. Qed.
+
+(* every pointer store into the destination object hits a pointer word of its type *)
+Theorem stores_scanned mn : forall c t base, gc_typed mn c t ->
+  Forall (fun o => In o (map (Z.add base) (ptr_offsets t))) (obj_stores c t base).
+Proof.
+  assert (Hleaf : forall c t base, stores_ok c t ->
+            Forall (fun o => In o (map (Z.add base) (ptr_offsets t))) (map (Z.add base) (ptr_stores c))).
+  { intros c t base H. unfold stores_ok in H. rewrite Forall_forall in *. intros x Hx.
+    apply in_map_iff in Hx as [y [<- Hy]]. apply in_map. apply H. exact Hy. }
+  induction c using codec_ind'; intros t base Hg;
+    try (apply Hleaf; exact Hg); try (apply Hleaf; destruct Hg as [Hg _]; exact Hg).
+  - (* record *)
+    cbn [gc_typed] in Hg. cbn [obj_stores]. destruct (underlying t) eqn:Eu; try contradiction.
+    induction fs as [|[fc [j|]] l IHl]; [constructor| |].
+    + inversion H as [|? ? Hfc Hl]; subst. cbn [fst] in Hfc. destruct Hg as [Hj Hrest].
+      apply Forall_app. split; [|apply IHl; assumption].
+      destruct (nth_error fields j) as [gf|] eqn:En; [|constructor].
+      specialize (Hfc (gf_type gf) (base + nth j (field_offsets fields 0) 0) Hj).
+      rewrite Forall_forall in *. intros x Hx. specialize (Hfc x Hx).
+      apply in_map_iff in Hfc as [y [<- Hy]].
+      replace (base + nth j (field_offsets fields 0) 0 + y) with (base + (nth j (field_offsets fields 0) 0 + y)) by lia.
+      apply in_map. rewrite <- ptr_offsets_underlying, Eu. eapply struct_ptr_words; eauto.
+    + inversion H; subst. apply IHl; assumption.
+  - (* union *)
+    cbn [gc_typed] in Hg. cbn [obj_stores]. induction cs as [|x l IHl]; [constructor|].
+    inversion H; subst. destruct Hg as [Hx Hl]. apply Forall_app. split; [auto|apply IHl; assumption].
+  - cbn [gc_typed] in Hg. cbn [obj_stores]. apply IHc. exact Hg.
+  - cbn [gc_typed] in Hg. cbn [obj_stores]. apply IHc. exact Hg.
+Qed.
+
+(* ------------------------------------------------------------------ *)
+(* (4) the pre-repair MapCodec.New                                      *)
+(* ------------------------------------------------------------------ *)
+Definition rg_field : ident := [102].                                   (* "f" *)
+Definition rg_map : gtype := TMap TString (TInt I64).
+Definition rg_schema : schema := SRecord [(rg_field, SMap (SLong LtNone))].
+Definition rg_ptr_map : gtype := TStruct [] [] [GF [70] true rg_field [] (TPtr rg_map)].          (* struct{ F *map[string]int64 } *)
+Definition rg_map_map : gtype := TStruct [] [] [GF [70] true rg_field [] (TMap TString rg_map)].  (* struct{ F map[string]map[string]int64 } *)
+Definition rg_schema2 : schema := SRecord [(rg_field, SMap (SMap (SLong LtNone)))].
+
+Lemma map_new_old_refuted :
+  (exists c, build reg_std rg_schema (Some rg_ptr_map) false = Some c /\
+             gc_typed mapnew_now c rg_ptr_map /\ ~ gc_typed mapnew_old c rg_ptr_map) /\
+  (exists c, build reg_std rg_schema2 (Some rg_map_map) false = Some c /\
+             gc_typed mapnew_now c rg_map_map /\ ~ gc_typed mapnew_old c rg_map_map) /\
+  (* the word: MapCodec.Read stores the map pointer at offset 0 of what New returned;
+     as a map variable that word is a pointer, in the runtime's map object it is the
+     element count *)
+  nth 0 (ptrmap rg_map) false = true /\ nth 0 (ptrmap (mapnew_old rg_map)) true = false /\
+  sizeof (mapnew_old rg_map) = 48 /\ sizeof rg_map = 8.
+Proof.
+  split; [|split].
+  - eexists. split; [vm_compute; reflexivity|]. split.
+    + cbn. unfold stores_ok, alloc_ok. cbn. repeat split; try (repeat constructor; auto; fail); vm_compute; reflexivity.
+    + intros H. cbn in H. unfold alloc_ok in H. cbn in H. destruct H as [[_ [[Hs _] _]] _]. vm_compute in Hs. discriminate.
+  - eexists. split; [vm_compute; reflexivity|]. split.
+    + cbn. unfold stores_ok, alloc_ok. cbn. repeat split; try (repeat constructor; auto; fail); vm_compute; reflexivity.
+    + intros H. cbn in H. unfold alloc_ok in H. cbn in H. destruct H as [[_ [[Hs _] _]] _]. vm_compute in Hs. discriminate.
+  - vm_compute. repeat split; reflexivity.
+Qed.
+
+(* ------------------------------------------------------------------ *)
+(* (5) top-level statements                                             *)
+(* ------------------------------------------------------------------ *)
+Theorem build_gc_typed reg : reg_sane reg -> forall s t om c,
+  build reg s (Some t) om = Some c -> gc_typed mapnew_now c t /\ alloc_ok mapnew_now c t.
+Proof.
+  intros Hreg s t om c Hb. apply (build_GT mapnew_now) with (reg := reg) (s := s) (om := om); auto.
+  intros t0 k e _. apply same_gc_refl.
+Qed.
+
+Lemma map_add0 l : map (Z.add 0) l = l.
+Proof. induction l as [|x r IH]; [reflexivity|]. cbn [map]. rewrite IH. reflexivity. Qed.
+
+Theorem build_stores_scanned reg : reg_sane reg -> forall s t om c,
+  build reg s (Some t) om = Some c -> Forall (fun o => In o (ptr_offsets t)) (obj_stores c t 0).
+Proof.
+  intros Hreg s t om c Hb. destruct (build_gc_typed reg Hreg s t om c Hb) as [Hg _].
+  pose proof (stores_scanned mapnew_now c t 0 Hg) as H. rewrite map_add0 in H. exact H.
+Qed.
+
+(* the pointee of every pointer codec is allocated (New is not nil), so Read never
+   decodes through a nil pointer: buildCodec puts a pointer codec only around a codec
+   built by the non-null, non-union dispatch *)
+Lemma union_new t mn c nn om :
+  alloc_type mn (CUnionOne c nn) t = alloc_type mn c t /\
+  alloc_type mn (CUnionStr om nn) t = Some TString /\
+  alloc_type mn (CCustom nn c) t = alloc_type mn c t.
+Proof. repeat split; reflexivity. Qed.
